@@ -13,15 +13,20 @@
        clock: the baseline and every candidate handed to the evaluator mean what the input means
        (C01_reductions_lossless_partial) -- given the record `leaves`, which names exactly the
        transformations whose image-level theorem is NOT yet proved in Coq (coverage of the
-       mzeng/battiato reindexing); those, the
-       parsing of the INPUT file into the image (`from_slice`) is decided on every run by the
-       correspondence check and the specification oracle (see evidence). *)
+       mzeng/battiato reindexing);
+   (4) FILE TO FILE: from_slice reads a valid datastream the way the specification's whole-file decoder does
+       (C01_input_parse_means: chunk walker = strict chunk parser, IDAT/IHDR/PLTE/tRNS collection, header
+       and colour interpretation, PngImage::new), and optimize_from_memory returns the input bytes or the
+       serialisation of a PngData that the specification decodes to the INPUT FILE's picture
+       (C01_file_to_file_partial; hypotheses: `leaves`, the zlib oracle, container side conditions on
+       the written chunks, image size within usize, colour key within the sample range).
+   Everything assumed is exercised on every run by the correspondence check and the specification oracle. *)
 From OxiVerif Require Import Base.Common Spec.Filter Spec.Adam7 Spec.Sem Model.Types Model.Options Model.BitDepth
   Model.ScanLines Model.Filters Model.Color Model.Palette Model.Reductions Model.Evaluate Model.Optimize
   Proofs.Bridge Proofs.PixelProofs Proofs.FilterProofs Proofs.ImageLift Proofs.LiftReductions Proofs.LiftColor
   Proofs.LiftPalette Proofs.LiftLines Proofs.LiftBits Proofs.LiftInterlace Proofs.LiftDeinterlace Proofs.PipelineLossless Proofs.FilterStream Proofs.EmittedStream.
 From OxiVerif Require Import Model.Interlace.
-From OxiVerif Require Import Spec.Decode Spec.DecodeFile Model.Headers Model.PngData Proofs.OutputProofs Proofs.OutputDecode Proofs.FileLevel Proofs.UnfilterImage.
+From OxiVerif Require Import Spec.Decode Spec.DecodeFile Model.Headers Model.PngData Proofs.OutputProofs Proofs.OutputDecode Proofs.FileLevel Proofs.UnfilterImage Proofs.InputParse Proofs.FileToFile.
 
 (* 16 -> 8 bit reduction: every pixel (samples whose two bytes are equal) keeps its exact RGBA
    value, colour key included (this is the statement that was false before fix 13ac031) *)
@@ -222,3 +227,47 @@ Theorem C01_image_deinterlace : forall img img' pic, wf img -> interlaced (hdr i
   deinterlace_image img = Ok img' -> sem img = Some pic -> sem img' = Some pic /\ wf img'.
 Proof. exact deinterlace_image_sem. Qed.
 Print Assumptions C01_image_deinterlace.
+
+(* INPUT SIDE: what PngData::from_slice builds from a valid datastream means the picture the specification decodes from it *)
+Theorem C01_input_parse_means : forall (e : env) (o : options) (inflate : list Z -> option (list Z)) bytes p pic nm ih rest,
+  bytes_ok bytes ->
+  from_slice e bytes o = Ok p ->
+  spec_parse_png bytes = Some ((nm, ih) :: rest) ->
+  spec_decode_chunks inflate ((nm, ih) :: rest) = Some pic ->
+  List.filter (named spec_IHDR) rest = [] ->
+  (length (List.filter (named spec_PLTE) rest) <= 1)%nat -> (length (List.filter (named spec_tRNS) rest) <= 1)%nat ->
+  (forall x n y, z_inflate e x n = Ok y -> inflate x = Some y /\ bytes_ok y) ->
+  spec_raw_size (width (hdr (raw p))) (height (hdr (raw p))) (bpp (hdr (raw p))) (interlaced (hdr (raw p))) true <= usize_max ->
+  wf_ctype (ctype (hdr (raw p))) (depth (hdr (raw p))) ->
+  wf (raw p) /\ sem (raw p) = Some pic /\
+  exists stream, inflate (idat_data p) = Some stream /\
+    spec_decode_stream (width (hdr (raw p))) (height (hdr (raw p))) (spec_color_of (ctype (hdr (raw p)))) (depth (hdr (raw p)))
+                       (interlaced (hdr (raw p))) stream = Some pic.
+Proof. exact from_slice_means. Qed.
+Print Assumptions C01_input_parse_means.
+
+(* FILE TO FILE: the whole in-memory entry point on the model *)
+Theorem C01_file_to_file_partial : forall (L : leaves) e o (inflate : list Z -> option (list Z)) bytes out pic nm ih rest,
+  optimize_alpha o = false -> scale_16 o = false ->
+  bytes_ok bytes ->
+  spec_parse_png bytes = Some ((nm, ih) :: rest) ->
+  spec_decode_chunks inflate ((nm, ih) :: rest) = Some pic ->
+  List.filter (named spec_IHDR) rest = [] ->
+  (length (List.filter (named spec_PLTE) rest) <= 1)%nat -> (length (List.filter (named spec_tRNS) rest) <= 1)%nat ->
+  (forall x n y, z_inflate e x n = Ok y -> inflate x = Some y /\ bytes_ok y) ->
+  (forall d s, inflate (z_deflate e d s) = Some s) ->
+  (forall p, from_slice e bytes o = Ok p ->
+     spec_raw_size (width (hdr (raw p))) (height (hdr (raw p))) (bpp (hdr (raw p))) (interlaced (hdr (raw p))) true <= usize_max /\
+     wf_ctype (ctype (hdr (raw p))) (depth (hdr (raw p)))) ->
+  optimize_from_memory e o bytes = Ok out ->
+  out = bytes \/ exists p', out = output p' /\ (container_ok p' -> spec_decode_png inflate (output p') = Some pic).
+Proof. exact optimize_from_memory_lossless_partial. Qed.
+Print Assumptions C01_file_to_file_partial.
+
+(* non-vacuity of the file-level hypotheses: a concrete 1x1 8-bit grey datastream (stored "compression") parses strictly and decodes *)
+Definition tiny_png : list Z :=
+  spec_signature ++ serialize [(spec_IHDR, [0;0;0;1; 0;0;0;1; 8; 0; 0; 0; 0]); (spec_IDAT, [0; 5]); (spec_IEND, [])].
+Example C01_file_example :
+  spec_decode_png (fun x => Some x) tiny_png = Some {| pic_w := 1; pic_h := 1; pic_px := [[(1285, 1285, 1285, 65535)]] |}
+  /\ exists nm ih rest, spec_parse_png tiny_png = Some ((nm, ih) :: rest) /\ List.filter (named spec_IHDR) rest = [].
+Proof. split; [vm_compute; reflexivity|]. eexists _, _, _. split; vm_compute; reflexivity. Qed.
